@@ -100,7 +100,7 @@ pub fn decode_fuse(t: &mut Tape) -> NetCase {
 }
 
 pub fn check(ctx: &mut Ctx) {
-    ctx.rule = "fuse: 2-25 rules sharing one token and one of 9 option sets but differing in pattern kind (plain, *, ^, /regex/, |, right-anchored), tag, exception, important, redirect, domain; std: C01-style lists up to 40 rules; tokenless: 2-11 rules without any indexable token (empty pattern, '*', one-character words) that all share the fallback bucket; live: Blocker::new(optimize=false) -> queries -> optimize() -> same queries. Differential oracle: optimised vs unoptimised engine, all verdict fields + csp set (debug text ignored; redirect ties free). Non-trivial = the optimised engine's answer was decided by a fused rule (debug text contains ' <+> ').".into();
+    ctx.rule = "fuse: 2-25 rules sharing one token and one of 9 option sets but differing in pattern kind (plain, *, ^, /regex/, |, right-anchored), tag, exception, important, redirect, domain; std: C01-style lists up to 40 rules; big-group: 2-800 same-shape fusable rules (sizes around 16/32/64/128/256/512) with one request per rule; tokenless: 2-11 rules without any indexable token (empty pattern, '*', one-character words) that all share the fallback bucket; live: Blocker::new(optimize=false) -> queries -> optimize() -> same queries. Differential oracle: optimised vs unoptimised engine, all verdict fields + csp set (debug text ignored; redirect ties free). Non-trivial = the optimised engine's answer was decided by a fused rule (debug text contains ' <+> ').".into();
     ctx.assumptions = vec!["both engines are built from the same parsed list; debug mode is on only to observe fusion".into()];
     let n = ctx.tier.pick(200_000, 2_500_000);
     drive(ctx, "fuse", n, 400, &decode_fuse, &check_case);
@@ -110,6 +110,10 @@ pub fn check(ctx: &mut Ctx) {
     drive(ctx, "tokenless", n, 300, &|t| gen::tokenless_case(t), &check_case);
     let n = ctx.tier.pick(20_000, 200_000);
     drive(ctx, "long-url", n, 600, &|t| gen::long_url_case(t), &check_case);
+    let n = ctx.tier.pick(400, 8_000);
+    drive(ctx, "big-group", n, 120, &|t| gen::big_group_case(t), &check_case);
+    let n = ctx.tier.pick(300, 6_000);
+    drive(ctx, "big-group-live", n, 120, &|t| gen::big_group_case(t), &check_live);
     let n = ctx.tier.pick(100_000, 1_000_000);
     drive(ctx, "live", n, 400, &decode_fuse, &check_live);
     let (per, len) = ctx.tier.pick((2, 3000), (10, 12000));
